@@ -147,6 +147,8 @@ class ListUsers(HTMLHandlerBase):
         Add a new user
         """
         js = flask.request.json
+        if not isinstance(js, dict):
+            return jsonify_no_content(400)
         result: AddEditUserResponse = {
             "errors": [],
             "success": False,
@@ -155,15 +157,15 @@ class ListUsers(HTMLHandlerBase):
         email: str | None = js.get("email")
         password: str | None = js.get("password")
         confirm: str | None = js.get("confirmPassword")
-        if username is None or username == "":
+        if not isinstance(username, str) or username == "":
             result["errors"].append('Username is required')
         elif User.count(username=username) > 0:
             result["errors"].append(f'User {username} already exists')
-        if email is None or email == "":
+        if not isinstance(email, str) or email == "":
             result["errors"].append('email is required')
         elif User.count(email=email) > 0:
             result["errors"].append(f'Email address {email} already exists')
-        if password is None or confirm is None:
+        if not isinstance(password, str) or not isinstance(confirm, str):
             result["errors"].append('password is required')
         elif password != confirm:
             result["errors"].append('passwords do not match')
